@@ -53,7 +53,9 @@ pub fn now() -> SystemTime {
             .unwrap_or_else(std::sync::PoisonError::into_inner);
     }
     drop(held);
-    SystemTime::UNIX_EPOCH + Duration::from_nanos(CLOCK_NS.load(Ordering::SeqCst))
+    // Every reading advances the clock by a nanosecond: a real clock never stands still,
+    // also not while a backlog of events is being worked off.
+    SystemTime::UNIX_EPOCH + Duration::from_nanos(CLOCK_NS.fetch_add(1, Ordering::SeqCst))
 }
 
 /// While `held` is true, every thread that reads the simulated clock waits.
